@@ -136,6 +136,7 @@ func c40bShutdown() {
 type c40bStats struct {
 	cached, cachedReplay, terminalDurable, finishFlushed, finishFailedAfterLoss, finishFailedNothingOpen atomic.Int64
 	losses, lossesWithOpenContent, pressureRefused, pressureEvictedTerminal, finishAfterPartialLoss      atomic.Int64
+	lossByReassignment, lossByLeaderOfNewSlot, localToLocal, authorityReturned                           atomic.Int64
 	closeAfterLoss, mergedClose, flushedLanes, appendAfterTerminal, ownRefused                           atomic.Int64
 }
 
@@ -166,6 +167,9 @@ type c40bInst struct {
 	channel string
 	hs      uint16
 	term    uint64
+	rev     uint64 // control snapshot revision
+	onSlot2 bool   // the stream's hash slot is assigned to slot 2
+	lead2   bool   // this node leads slot 2
 	nextID  int
 	others  int // sessions of other messages created by the pressure event
 
@@ -175,11 +179,20 @@ type c40bInst struct {
 	broken   bool
 }
 
-func c40bSnapshot() control.Snapshot {
-	return control.Snapshot{Revision: 1, ControllerID: 1,
+// c40bSnapshot is the control snapshot of a two-slot cluster: slot 1 is led by this node,
+// slot 2 by node 2 (until the leader events say otherwise); the stream's hash slot hs lives on
+// slot 1 or, after the reassignment event, on slot 2; the other hash slot stays on slot 1.
+func c40bSnapshot(revision uint64, hs uint16, onSlot2 bool) control.Snapshot {
+	owner := func(h uint16) uint32 {
+		if h == hs && onSlot2 {
+			return 2
+		}
+		return 1
+	}
+	return control.Snapshot{Revision: revision, ControllerID: 1,
 		Nodes:     []control.Node{{NodeID: 1, Addr: "127.0.0.1:1001", Roles: []control.Role{control.RoleData}, Status: control.NodeAlive}, {NodeID: 2, Addr: "127.0.0.1:1002", Roles: []control.Role{control.RoleData}, Status: control.NodeAlive}},
-		Slots:     []control.SlotAssignment{{SlotID: 1, DesiredPeers: []uint64{1, 2}, ConfigEpoch: 1, PreferredLeader: 1}},
-		HashSlots: control.HashSlotTable{Revision: 1, Count: 2, Ranges: []control.HashSlotRange{{From: 0, To: 1, SlotID: 1}}}}
+		Slots:     []control.SlotAssignment{{SlotID: 1, DesiredPeers: []uint64{1, 2}, ConfigEpoch: 1, PreferredLeader: 1}, {SlotID: 2, DesiredPeers: []uint64{1, 2}, ConfigEpoch: 1, PreferredLeader: 2}},
+		HashSlots: control.HashSlotTable{Revision: revision, Count: 2, Ranges: []control.HashSlotRange{{From: 0, To: 0, SlotID: owner(0)}, {From: 1, To: 1, SlotID: owner(1)}}}}
 }
 
 const c40bMaxSessions = 2
@@ -191,10 +204,11 @@ func c40bNew(r *ev.R, st *c40bStats) mc.Instance {
 	in.hs = routing.HashSlotForKey(in.channel, 2)
 	node := &Node{cfg: Config{NodeID: 1}, router: routing.NewRouter(), messageEventStreamCache: newMessageEventStreamCache(c40bMaxSessions),
 		routeAuthorityEpochs: make(map[uint16]uint64), proposer: a}
-	if err := node.router.UpdateControlSnapshot(c40bSnapshot()); err != nil {
+	in.rev = 1
+	if err := node.router.UpdateControlSnapshot(c40bSnapshot(in.rev, in.hs, false)); err != nil {
 		panic(fmt.Sprintf("c40b harness: control snapshot: %v", err))
 	}
-	node.router.UpdateSlotLeaders([]routing.SlotStatus{{SlotID: 1, Leader: 1, LeaderTerm: in.term}})
+	node.router.UpdateSlotLeaders([]routing.SlotStatus{{SlotID: 1, Leader: 1, LeaderTerm: in.term}, {SlotID: 2, Leader: 2, LeaderTerm: in.term}})
 	node.publishRouteAuthorityChanges(nil)
 	node.started.Store(true)
 	in.node = node
@@ -212,17 +226,34 @@ func (in *c40bInst) Events() []string {
 	if in.broken {
 		return nil
 	}
+	var route []string
+	if in.onSlot2 {
+		route = append(route, "move-back")
+	} else {
+		route = append(route, "move-to-slot2")
+	}
+	if in.lead2 {
+		route = append(route, "remote-leads-slot2")
+	} else {
+		route = append(route, "lead-slot2")
+	}
+	if !in.authorityLocal() {
+		return route // another node is the authority of the stream's hash slot: nothing can be appended here
+	}
 	evs := []string{"open:main", "delta:main", "snapshot:main", "delta:" + c40bLaneB, "snapshot:" + c40bLaneB}
 	for _, l := range []string{metadb.EventKeyDefault, c40bLaneB} {
 		if in.lanes[l].LastID != "" {
 			evs = append(evs, "redelta:"+l)
 		}
 	}
-	evs = append(evs, "close:main", "close:"+c40bLaneB, "error:main", "finish", "reset", "restore", "lose-leadership")
+	evs = append(evs, "close:main", "close:"+c40bLaneB, "error:main", "finish", "reset", "restore")
+	if !in.onSlot2 {
+		evs = append(evs, "lose-leadership") // of slot 1, which owns the stream's hash slot
+	}
 	if in.others < 2 {
 		evs = append(evs, "pressure")
 	}
-	return evs
+	return append(evs, route...)
 }
 
 func (in *c40bInst) readRows() map[string]c40bRow {
@@ -353,6 +384,8 @@ func (in *c40bInst) Apply(label string, _ *mc.Env) (string, error) {
 		in.loseCache(op)
 	case "pressure":
 		return in.evPressure()
+	case "move-to-slot2", "move-back", "lead-slot2", "remote-leads-slot2":
+		return in.evRoute(op, before)
 	default:
 		in.fail("unknown event %q", label)
 		return "?", nil
@@ -364,6 +397,76 @@ func (in *c40bInst) Apply(label string, _ *mc.Env) (string, error) {
 		return op, mc.Violatef("C40:cache-loss-wrote-projection", "%s changed the durable projection from %s to %s", op, c40bRowsStr(before), c40bRowsStr(after))
 	}
 	return op + ": cache dropped", nil
+}
+
+// authorityLocal reports whether this node leads the slot that owns the stream's hash slot.
+func (in *c40bInst) authorityLocal() bool { return !in.onSlot2 || in.lead2 }
+
+// evRoute changes the real route table the way the node does when a control snapshot reassigns
+// the hash slot or a slot leader observation arrives.
+func (in *c40bInst) evRoute(op string, before map[string]c40bRow) (string, error) {
+	wasLocal := in.authorityLocal()
+	var err error
+	switch op {
+	case "move-to-slot2", "move-back":
+		in.onSlot2 = op == "move-to-slot2"
+		in.rev++
+		snap := c40bSnapshot(in.rev, in.hs, in.onSlot2)
+		err = in.node.updateRouteAuthorityTable(func() error { return in.node.router.UpdateControlSnapshot(snap) })
+	case "lead-slot2", "remote-leads-slot2":
+		in.lead2 = op == "lead-slot2"
+		leader := uint64(2)
+		if in.lead2 {
+			leader = 1
+		}
+		in.term++
+		st := []routing.SlotStatus{{SlotID: 2, Leader: leader, LeaderTerm: in.term}}
+		err = in.node.updateRouteAuthorityTable(func() error { in.node.router.UpdateSlotLeaders(st); return nil })
+	}
+	if err != nil {
+		in.fail("%s: %v", op, err)
+		return "?", nil
+	}
+	nowLocal := in.authorityLocal()
+	if r, rerr := in.node.RouteKey(in.channel); rerr != nil || (r.Leader == in.node.cfg.NodeID) != nowLocal {
+		in.fail("%s: router says leader %d (%v), the harness expects local=%v", op, r.Leader, rerr, nowLocal)
+		return "?", nil
+	}
+	view := in.cacheView()
+	if after := in.readRows(); !c40bRowsEq(before, after) {
+		return op, mc.Violatef("C40:cache-loss-wrote-projection", "%s changed the durable projection from %s to %s", op, c40bRowsStr(before), c40bRowsStr(after))
+	}
+	switch {
+	case wasLocal && !nowLocal:
+		if len(view) != 0 {
+			return op, mc.Violatef("C40:cache-survived-authority-loss", "%s moved the authority for the stream's hash slot to another node, but the cache still holds %v for the message", op, view)
+		}
+		in.loseCache(op)
+		if op == "move-to-slot2" || op == "move-back" {
+			in.st.lossByReassignment.Add(1)
+		} else {
+			in.st.lossByLeaderOfNewSlot.Add(1)
+		}
+		return op + ": authority moved away, cache dropped", nil
+	case wasLocal && nowLocal:
+		modelCached := false
+		for _, l := range in.lanes {
+			modelCached = modelCached || l.Cached
+		}
+		if modelCached && len(view) == 0 { // dropping more than required is fail-closed, not a violation
+			in.loseCache(op)
+			return op + ": authority stays local, cache dropped anyway", nil
+		}
+		in.st.localToLocal.Add(1)
+		return op + ": authority stays local", nil
+	case !wasLocal && nowLocal:
+		in.st.authorityReturned.Add(1)
+		if len(view) != 0 {
+			return op, mc.Violatef("C40:cache-survived-authority-loss", "%s returned the authority to this node and the cache holds the stale pre-move session %v", op, view)
+		}
+		return op + ": authority returned", nil
+	}
+	return op + ": authority stays remote", nil
 }
 
 func (in *c40bInst) evCached(op, lane string, before map[string]c40bRow) (string, error) {
@@ -629,7 +732,9 @@ func (in *c40bInst) Canon() string {
 		Lanes  map[string]lane
 		Others int
 		Fin    bool
-	}{Rows: in.rows, Cache: in.cacheView(), Lanes: map[string]lane{}, Others: in.others, Fin: in.finished}
+		On2    bool
+		Lead2  bool
+	}{Rows: in.rows, Cache: in.cacheView(), Lanes: map[string]lane{}, Others: in.others, Fin: in.finished, On2: in.onSlot2, Lead2: in.lead2}
 	for k, l := range in.lanes {
 		c.Lanes[k] = lane{l.Acked, l.CText, l.HasAcked, l.Cached, l.Lost, l.Terminal, l.LastID != ""}
 	}
@@ -673,8 +778,8 @@ func TestVerifC40Cache(t *testing.T) {
 		MaxDepth:  ev.Pick(r, 5, 7),
 		MaxStates: ev.Pick(r, int64(300000), int64(3000000)),
 		Bounds: map[string]any{"lanes": []string{metadb.EventKeyDefault, c40bLaneB}, "cache_max_sessions": c40bMaxSessions,
-			"events": "open/delta/snapshot (cache-only, fresh ids), redelta (same id again), close/error (durable terminal, merges the cached snapshot), finish (payload without snapshot), reset | restore pause+resume | lose and regain slot leadership (cache loss), pressure (sessions of other messages)",
-			"node":   "hand-assembled Node: real router (1 slot, 2 hash slots, this node leads), real stream cache, no finish coalescer, proposer = real slot state machine on a real metadb.DB"},
+			"events": "open/delta/snapshot (cache-only, fresh ids), redelta (same id again), close/error (durable terminal, merges the cached snapshot), finish (payload without snapshot), reset | restore pause+resume | lose and regain slot leadership (cache loss), pressure (sessions of other messages), route table: move the stream's hash slot to slot 2 / back to slot 1 (control snapshot), this node / node 2 leads slot 2 (no appends while another node is the authority)",
+			"node":   "hand-assembled Node: real router (2 slots, 2 hash slots, this node leads slot 1, node 2 leads slot 2), real stream cache, no finish coalescer, proposer = real slot state machine on a real metadb.DB"},
 		Note: "merging on the durable lanes, the real cache content read through messageEventStreamCache.states and the model of acknowledged events; event ids are fresh per event and left out of the canonical state (renaming symmetry)",
 	})
 	if r.Replay() != nil {
@@ -691,6 +796,10 @@ func TestVerifC40Cache(t *testing.T) {
 	g("finish-flushed-cached-lanes", st.finishFlushed.Load(), 10)
 	g("lanes-flushed-by-finish", st.flushedLanes.Load(), 10)
 	g("terminal-event-merged-cached-snapshot", st.mergedClose.Load(), 10)
+	g("authority-lost-by-hash-slot-reassignment", st.lossByReassignment.Load(), 10)
+	g("authority-lost-by-leader-change-of-the-new-slot", st.lossByLeaderOfNewSlot.Load(), 1)
+	g("authority-returned-to-this-node", st.authorityReturned.Load(), 10)
+	g("hash-slot-moved-between-locally-led-slots", st.localToLocal.Load(), 1)
 	g("session-pressure-refused-while-open", st.pressureRefused.Load(), 1)
 	g("terminal-session-evicted-under-pressure", st.pressureEvictedTerminal.Load(), 1)
 	r.Count("finish_succeeded_after_loss_then_new_deltas", st.finishAfterPartialLoss.Load())
